@@ -17,8 +17,10 @@ reg(Spec(
         "component names are abstracted to numbers; the Go map is an association list without duplicate keys",
         "one GenericSyncMap method call = one critical section (checked: the request's lock trace must be [Len; Iterate])",
         "WaitForReady's select is modelled as the sequence of arms taken; wall-clock polling is observed, not proved",
+        "daemon wiring: C18 is read as a statement about registered component NAMES; 'named-pipe-processor' is registered twice and marked by both pipe ingesters, so readiness needs the audit processor and at least ONE ingester (C18_daemon_ready_needs: an observation, reported, not raised)",
     ],
-    modelled=["internal/health/health.go (AddReadiness, OnReady, IsReady, GetReadyzStatusMap, readyzHandler, WaitForReady)"],
+    modelled=["internal/health/health.go (AddReadiness, OnReady, IsReady, GetReadyzStatusMap, readyzHandler, WaitForReady)",
+              "cmd/namedpipe.go + main.go + the workers' entry methods: readiness wiring generated into Gen/DaemonWiring.v (start-up order, marking sets, health object per worker, every AddReadiness/OnReady call site)"],
     extra_targets=["Model/Health.vo"],
 ))
 
@@ -159,7 +161,8 @@ reg(Spec(
     args_search=["-n", "400"],
     assumptions=[
         "A-append: one Write call per event and no interleaving of single writes on the O_APPEND output file (kernel/encoding-json behaviour): observed by recording every Write call, not proved",
-        "the hand-off happens only after the UserLogin was written (wf_run): this is C05's theorem about the sshd processor",
+        "the hand-off happens only after the UserLogin was written (wf_run): an assumption of C10_causal over free runs, PROVED for combined runs (C10_combined_run_wf, Model/PipelineSshd.v: records processed sequentially by SshdProc.process, rendez-vous hand-off, Read's loop holding at most one login, any schedule); C10_causal_combined / C10_once_combined carry no such hypothesis",
+        "combined runs: a login is abstracted to (record index, forwarded PID, handler clock, credential id non-empty); cleanups may fall between a rendez-vous and its RemoteLogin (more interleavings than the code has)",
         "correlator calls are atomic (C03); the tracker component of a pipeline run is the sequential correlator on the run's own history",
         DAEMON_ASSUME,
     ],
@@ -200,7 +203,8 @@ reg(Spec("C08", "Props/C08.v", harness="workers", overlay={},
     assumptions=[
       "daemon = errgroup over group_workers; a daemon round = one fair round of every worker under the same group context; a returned error or a signal cancels it for good",
       "signal delivery, log.Fatalln's status 1, the kernel FIFO and 'buffer full' under load (writer floods 1.2 s, >40k lines vs 10000 slots) are runtime facts observed on the built binary (bound 5 s)",
-      "optional HTTP/metrics workers (flags off by default) are listed, not modelled"],
+      "optional HTTP/metrics workers are listed, not modelled; that their flags default to false is generated and proved (C08_optional_workers_off_by_default)",
+      "exit status: Workers.exited's 1/0 is tied to func main as interpreted from main.go (C08_exit_status_from_source); log.Fatal* = 1 and os.Exit(n) = n are the interpreter's reading of the standard library"],
     modelled=WORKERS_MODELLED))
 
 AUDITPROC_OVERLAY = {"processors/auditd/verif_c15_export.go": "harness/overlay/auditd_c15_verif.go"}
